@@ -178,7 +178,7 @@ def j2(vh, pairs, work, seed, n_gate, n_hash, perms):
     return inp, obs, json.load(open(summ))
 
 
-J3_CHUNK = 45000   # observations per TLC run (a 55k-line trace costs TLC about 6 GB)
+J3_CHUNK = int(os.environ.get("VERIF_MMATCH_J3_CHUNK", "45000"))   # observations per TLC run (a 55k-line trace costs TLC about 6 GB)
 
 
 def _j3_one(trace_path, timeout):
@@ -211,16 +211,10 @@ def j3(trace_path, work=None, timeout=1500):
     if len(raw) <= J3_CHUNK or work is None:
         chunks = [list(range(len(raw)))]
     else:
-        n_chunks = -(-len(raw) // J3_CHUNK)
-        size = -(-len(raw) // n_chunks)            # balanced chunks
-        chunks, cur = [], list(idx_hash)
-        for i in idx_rest:
-            if len(cur) >= size:
-                chunks.append(cur)
-                cur = []
-            cur.append(i)
-        if cur:
-            chunks.append(cur)
+        n_chunks = max(1, -(-len(idx_rest) // J3_CHUNK))
+        size = -(-len(idx_rest) // n_chunks)       # balanced chunks; the (light) hash observations go first, alone
+        chunks = [list(idx_hash)] if idx_hash else []
+        chunks += [idx_rest[k:k + size] for k in range(0, len(idx_rest), size)]
     bad, drift, judged, wall = [], [], 0, 0.0
     for n, ch in enumerate(chunks):
         path = trace_path
